@@ -2022,6 +2022,12 @@ class Exec:
             return [(st, VStr(z=t))]
         if isinstance(b, VStr) and name in ('upper', 'lower') and isinstance(b.s, str):
             return [(st, VStr(s=getattr(b.s, name)()))]
+        if isinstance(b, VStr) and name == 'replace' and len(A) == 2 and all(isinstance(x, VStr) and isinstance(x.s, str) for x in A):
+            if isinstance(b.s, str):
+                return [(st, VStr(s=b.s.replace(A[0].s, A[1].s)))]
+            if b.z is not None:
+                F = z3.Function("STR_REPLACE[%r->%r]" % (A[0].s, A[1].s), BYTES, BYTES)
+                return [(st, VStr(z=F(b.z), cls=None))]
         if isinstance(b, VStr) and name == 'join' and isinstance(b.s, str):
             try:
                 its = self.iter_items(A[0], st)
